@@ -52,19 +52,19 @@ func (c17) Mandatory(tier string) []string {
 }
 
 type clEntry struct {
-	Source  string            `json:"src"`
-	Version string            `json:"ver"`
-	Dists   []string          `json:"dists"`
-	Opts    [][2]string       `json:"opts"`
-	Body    string            `json:"body"` // verbatim, between header and trailer
-	Who     string            `json:"who"`
-	When    string            `json:"when"` // RFC1123Z text
-	Sep     int               `json:"sep"`  // blank lines after the entry
+	Source  string      `json:"src"`
+	Version string      `json:"ver"`
+	Dists   []string    `json:"dists"`
+	Opts    [][2]string `json:"opts"`
+	Body    string      `json:"body"` // verbatim, between header and trailer
+	Who     string      `json:"who"`
+	When    string      `json:"when"` // RFC1123Z text
+	Sep     int         `json:"sep"`  // blank lines after the entry
 	// DayStyle: how a day of the month below 10 is written in the trailer: 0 "03", 1 "3", 2 " 3" (deb-changelog(5): one or two digits)
 	DayStyle int `json:"daystyle,omitempty"`
 	// After: lines between this entry and the next (or the end): comment lines ("# ...") and lines of blanks
-	After []string `json:"after,omitempty"`
-	_       map[string]string `json:"-"`
+	After []string          `json:"after,omitempty"`
+	_     map[string]string `json:"-"`
 }
 
 type clDoc struct {
